@@ -12,6 +12,7 @@ package curve
 // (λx : λy : λ : λxy) without going through the decoder under test.
 
 import (
+	"encoding/hex"
 	"bytes"
 	"math/big"
 	"testing"
@@ -840,8 +841,8 @@ func c11CheckUni(c c11UniCase) h.Result {
 func TestC11Uniform(t *testing.T) { h.Run(t, c11GenUni, c11CheckUni) }
 
 // TestC11UniformList: both halves over every non-canonical spelling p+k
-// (k = 0..18), the canonical k, and the bit-255 variants; plus the RFC's
-// element-derivation inputs are covered by verifref's own vector test.
+// (k = 0..18), the canonical k, and the bit-255 variants; plus the four RFC
+// element-derivation inputs that exist to pin down exactly those two things.
 func TestC11UniformList(t *testing.T) {
 	var halves [][]byte
 	for k := int64(0); k < 19; k++ {
@@ -858,6 +859,20 @@ func TestC11UniformList(t *testing.T) {
 		for _, hi := range [][]byte{halves[(i*7+3)%len(halves)], halves[len(halves)-1-i], lo} {
 			cases = append(cases, c11UniCase{In: append(append([]byte(nil), lo...), hi...), Cls: [2]string{"list", "list"}, Rel: "list"})
 		}
+	}
+	// RFC 9496 A.3: the four inputs that "all produce the same ristretto255
+	// element" (the reference reproduces the published output in its self-test)
+	for _, hx := range []string{
+		"edffffffffffffffffffffffffffffffffffffffffffffffffffffffffffffff1200000000000000000000000000000000000000000000000000000000000000",
+		"edffffffffffffffffffffffffffffffffffffffffffffffffffffffffffff7fffffffffffffffffffffffffffffffffffffffffffffffffffffffffffffffff",
+		"0000000000000000000000000000000000000000000000000000000000000080ffffffffffffffffffffffffffffffffffffffffffffffffffffffffffffff7f",
+		"00000000000000000000000000000000000000000000000000000000000000001200000000000000000000000000000000000000000000000000000000000080",
+	} {
+		b, err := hex.DecodeString(hx)
+		if err != nil {
+			panic(err)
+		}
+		cases = append(cases, c11UniCase{In: b, Cls: [2]string{"rfc9496-A.3", "rfc9496-A.3"}, Rel: "list"})
 	}
 	h.RunList(t, cases, c11CheckUni)
 }
